@@ -14,10 +14,10 @@ import NeumannModel.RaftWal.Model
     recover <hexfile>           RaftWal::open (tail repair) + from_wal  → ok n=.. <state> | err checksum
     replay_raw <hexfile>        replay WITHOUT the tail repair (pre-fix open)            → same format
     entries <rec> <rec> …       RaftRecoveryState::from_entries                          → <state>
-    node <id>                   fresh node, empty ghost                                   → <nodestate>
-    restart <id> <hexfile>      RaftNode::with_wal on these bytes (ghost kept)            → <nodestate> | err checksum
+    node <id> [trailing]        fresh node (config.snapshot_trailing_logs, default 100), empty ghost → <nodestate>
+    restart <id> <hexfile>      RaftNode::with_wal on these bytes, same config (ghost kept) → <nodestate> | err checksum
     ev elect | rv t c li lt | rvr from t 0|1 | prestart | pv t c li lt | pvr from t 0|1 | tnow from t leader
-       | lead | ae t l pi pt <t.c,…|-> | aer t | prop c
+       | lead | ae t l pi pt <t.c,…|-> | aer t | prop c | compact <snapshot index>
        | snap li lt <t.c,…|->   (install_snapshot: metadata index/term, entries 1..n)
                                 → recs=<rec,…|-> reply=<…> state=<nodestate>
     evf <same events>           the handler while every RaftWal::append fails (stepFail)  → same format
@@ -107,13 +107,15 @@ def showRole : Role → String
 def sortNats (xs : List Nat) : List Nat :=
   xs.foldl (fun acc x => (acc.filter (· < x)) ++ [x] ++ (acc.filter (x < ·))) []
 
-/-- `<term>/<votedFor>/<role>/<log> l=<current_leader> pv=<in_pre_vote> votes=<ids> pvotes=<ids>` -/
+/-- `<term>/<votedFor>/<role>/<in-memory log> l=<current_leader> pv=<in_pre_vote> votes=<ids> pvotes=<ids>
+    b=<log_base_index>` -/
 def showNode (n : Node) : String :=
   s!"{n.term}/{showOptNat n.votedFor}/{showRole n.role}/" ++
-  showList (n.log.map fun e => s!"{e.index}:{e.term}:{e.cmd}") ++
+  showList ((n.log.drop n.base).map fun e => s!"{e.index}:{e.term}:{e.cmd}") ++
   s!" l={showOptNat n.leader} pv={if n.inPreVote then 1 else 0}" ++
   s!" votes={showList ((sortNats n.votesReceived).map toString)}" ++
-  s!" pvotes={showList ((sortNats n.preVotes).map toString)}"
+  s!" pvotes={showList ((sortNats n.preVotes).map toString)}" ++
+  s!" b={n.base}"
 
 def showReply : Reply → String
   | .none => "none"
@@ -167,6 +169,7 @@ def parseEvent : List String → Option Event
       pure (.appendEntries (← t.toNat?) (← l.toNat?) (← pi.toNat?) (← pt.toNat?) (← parsePairs es))
   | ["aer", t] => t.toNat?.map .appendResponse
   | ["prop", c] => c.toNat?.map .propose
+  | ["compact", i] => i.toNat?.map .compact
   | ["snap", li, lt, es] => do
       pure (.installSnapshot (← li.toNat?) (← lt.toNat?) (← parsePairs es))
   | _ => none
@@ -199,11 +202,17 @@ def walStep (st : DState) (line : String) : DState × String :=
       | some es => (st, showRState (fromEntries es)) | none => bad
   | ["node", id] => match id.toNat? with
       | some i => ({ st with node := { id := i }, ghost := {} }, showNode { id := i }) | none => bad
+  | ["node", id, tr] => match id.toNat?, tr.toNat? with
+      | some i, some tr =>
+        ({ st with node := { id := i, trailing := tr }, ghost := {} }, showNode { id := i, trailing := tr })
+      | _, _ => bad
   | ["restart", id, h] => match id.toNat?, unhex h with
       | some i, some b =>
         (match recoverBytes crc deser (FramedLog.openRepair b) with
          | .checksumError => (st, "err checksum")
-         | .ok s _ _ => let n := restart i s; ({ st with node := n }, showNode n))
+         | .ok s _ _ =>
+           let n := { restart i s with trailing := st.node.trailing }
+           ({ st with node := n }, showNode n))
       | _, _ => bad
   | "ev" :: rest => match parseEvent rest with
       | some e =>
